@@ -224,6 +224,10 @@ func (r *runner) until(op *Op) error {
 			} else {
 				ok = r.s.AgentState(strings.TrimPrefix(strings.TrimPrefix(op.Who, "ext:"), "int:")) == op.State
 			}
+			if ok {
+				// an observation of the emulator's state (internal state endpoint): part of the trace
+				r.s.Rec.Emit("drv", "StateSeen", "who", op.Who, "state", op.State)
+			}
 		case op.Ev != "":
 			n := op.N
 			if n == 0 {
@@ -312,6 +316,7 @@ func Run(sc *Scenario, outDir string) Outcome {
 		r.opWait = time.Duration(sc.Opt.OpWaitMs) * time.Millisecond
 	}
 	var wg sync.WaitGroup
+	stop := false
 	for i := range sc.Ops {
 		op := &sc.Ops[i]
 		var herr error
@@ -371,6 +376,19 @@ func Run(sc *Scenario, outDir string) Outcome {
 			herr = r.settle(op)
 		case "until":
 			herr = r.until(op)
+		case "expect":
+			// like until, bounded by op.Ms: if the event does not come the trace gets a Missing event (which no
+			// action of the specification explains) and the scenario ends there
+			save := r.opWait
+			if op.Ms > 0 {
+				r.opWait = time.Duration(op.Ms) * time.Millisecond
+			}
+			err := r.until(op)
+			r.opWait = save
+			if err != nil {
+				s.Rec.Emit("drv", "Missing", "what", fmt.Sprintf("%s %s=%s n=%d since=%s", op.Ev, op.Key, op.Val, op.N, op.Since))
+				stop = true
+			}
 		case "sleep":
 			time.Sleep(time.Duration(op.Ms) * time.Millisecond)
 		case "exit":
@@ -396,6 +414,9 @@ func Run(sc *Scenario, outDir string) Outcome {
 			r.mu.Unlock()
 		default:
 			s.Rec.Emit("drv", "BadOp", "op", op.Op)
+		}
+		if stop {
+			break
 		}
 		if herr != nil {
 			out.Status, out.Detail = "hang", herr.Error()
